@@ -63,6 +63,39 @@ func init() {
 						if why, bad := forbiddenFuncs[path+"."+obj.Name()]; bad {
 							rep.Grounds = append(rep.Grounds, Ground{Name: fmt.Sprintf("%s/%s/reads-only-the-request[%s.%s]@%d", short, fname, path, obj.Name(), pk.Fset.Position(x.Pos()).Line), OK: false, Text: "no use of " + path + "." + obj.Name() + " (" + why + ")"})
 						}
+					case *ast.CallExpr:
+						// a pointer handed to a formatting function (fmt.*print*, Errorf, or the generators' P helpers) is
+						// rendered as its address unless its type has a String/Error method: process-dependent text
+						isFmt := false
+						switch fun := x.Fun.(type) {
+						case *ast.SelectorExpr:
+							if id, ok := fun.X.(*ast.Ident); ok {
+								if pn, ok := pk.TypesInfo.Uses[id].(*types.PkgName); ok && pn.Imported().Path() == "fmt" {
+									switch fun.Sel.Name {
+									case "Sprintf", "Sprint", "Sprintln", "Fprintf", "Fprint", "Fprintln", "Errorf", "Printf", "Print", "Println":
+										isFmt = true
+									}
+								}
+							}
+							if fun.Sel.Name == "P" {
+								isFmt = true
+							}
+						}
+						if isFmt {
+							for _, a := range x.Args {
+								t := pk.TypesInfo.TypeOf(a)
+								if t == nil {
+									continue
+								}
+								if pt, ok := t.Underlying().(*types.Pointer); ok {
+									ms := types.NewMethodSet(t)
+									if ms.Lookup(nil, "String") == nil && ms.Lookup(nil, "Error") == nil {
+										rep.Grounds = append(rep.Grounds, Ground{Name: fmt.Sprintf("%s/%s/no-pointer-formatting@%d", short, fname, pk.Fset.Position(a.Pos()).Line), OK: false,
+											Text: "no pointer value is formatted into text (its address differs between processes)", Detail: types.ExprString(a) + " has type " + pt.String()})
+									}
+								}
+							}
+						}
 					case *ast.BasicLit:
 						if x.Kind == token.STRING && strings.Contains(x.Value, "%p") {
 							rep.Grounds = append(rep.Grounds, Ground{Name: fmt.Sprintf("%s/%s/no-pointer-formatting@%d", short, fname, pk.Fset.Position(x.Pos()).Line), OK: false, Text: "no %p formatting (addresses differ between processes)"})
@@ -219,7 +252,8 @@ func independenceGrounds(plugin string, withEnv bool) []Ground {
 		names = append(names, fd.GetName())
 	}
 	gen := func(files []string, env []string) map[string]string {
-		req := &pluginpb.CodeGeneratorRequest{FileToGenerate: files, Parameter: proto.String("features=protoc+fast"), ProtoFile: topoFiles(all, files)}
+		req := &pluginpb.CodeGeneratorRequest{FileToGenerate: files, Parameter: proto.String("features=protoc+fast"), ProtoFile: topoFiles(all, files),
+			CompilerVersion: &pluginpb.Version{Major: proto.Int32(3), Minor: proto.Int32(21), Patch: proto.Int32(0), Suffix: proto.String("rc1")}}
 		in, _ := proto.Marshal(req)
 		cmd := exec.Command(plugin)
 		cmd.Stdin = bytes.NewReader(in)
